@@ -1725,7 +1725,9 @@ func (g *gen) importClause(p *pattern) importCase {
 			}
 		}
 		if usesMv {
-			ic.meta += "var " + mvName + " identifier\n"
+			// the name of an import may be declared as either kind of metavariable: an import name is an identifier and an
+			// identifier is an expression
+			ic.meta += "var " + mvName + " " + g.pick("identifier", "identifier", "expression") + "\n"
 		}
 		// file side
 		switch g.r.Intn(8) {
